@@ -45,7 +45,7 @@ def spec_m(res_w):
 
 def one_case(run, driver, rng, reuse=False, given=None):
     if given is not None:
-        e, estimands = given
+        e, estimands = given[0], given[1]
     else:
         n_rep = rng.choice([6, 7, 9, 12, 20, 40, 120])
         e = exact_election(rng, n_rep, n_partial=rng.randint(1, 6))
@@ -75,8 +75,45 @@ def one_case(run, driver, rng, reuse=False, given=None):
                     k = e.cur.index[e.cur["geographic_unit_fips"] == e.pre.loc[i, "geographic_unit_fips"]]
                     if len(k):
                         e.cur.loc[k[0], rc] = int(round((new + 1) * (int(e.cur.loc[k[0], rc]) + 1) / (old + 1)))
-    case = {"election": e.describe(), "estimands": estimands, "reuse_frames": reuse}
+    tf_lo, tf_hi = (given[2] if given is not None and len(given) > 2 else
+                    rng.choice([(0.5, 2.0), (0.5, 2.0), (0.5, 2.0), (0, 2.0), (0.25, 3.0), (0.5, 1.5), (0, 10.0)]))
+    outliers = (given[3] if given is not None and len(given) > 3 else
+                (not reuse and e.pre.shape[0] >= 24 and rng.random() < 0.5))
+    mp = {"fit_margin_outlier_model": False, "fit_turnout_outlier_model": bool(outliers), "turnout_factor_lower": tf_lo,
+          "turnout_factor_upper": tf_hi}
+    case = {"election": e.describe(), "estimands": estimands, "reuse_frames": reuse, "turnout_factor_limits": [tf_lo, tf_hi],
+            "turnout_outlier_model": bool(outliers)}
     calls = []
+    flagged_by_rule = []   # what the outlier model must flag, recomputed from its own fit (mean + z * population std of |residual|)
+    from elexmodel.handlers.data.CombinedData import CombinedDataHandler as CDH
+
+    orig_outlier = CDH._fit_outlier_detection_model
+
+    def outlier_rec(self_, reporting_units, response_variable, z):
+        from elexsolver.QuantileRegressionSolver import QuantileRegressionSolver as Q2
+
+        preds = []
+        op = Q2.predict
+
+        def pred_rec(s, x, *a, **kw):
+            out = op(s, x, *a, **kw)
+            preds.append(np.asarray(out, dtype=float).ravel().copy())
+            return out
+
+        Q2.predict = pred_rec
+        try:
+            got = orig_outlier(self_, reporting_units, response_variable, z)
+        finally:
+            Q2.predict = op
+        if preds:
+            y = reporting_units[response_variable].to_numpy(dtype=float)
+            ar = np.abs(y - preds[0][: len(y)])
+            thr = ar.mean() + z * ar.std()
+            near = bool(np.any(np.abs(ar - thr) <= 1e-9 * max(1.0, abs(thr))))
+            flagged_by_rule.append({"ids": set(reporting_units["geographic_unit_fips"][ar > thr]), "near": near,
+                                    "impl": set(got["geographic_unit_fips"])})
+        return got
+
     C.use_repo()
     from elexsolver.QuantileRegressionSolver import QuantileRegressionSolver as QRS
 
@@ -90,6 +127,7 @@ def one_case(run, driver, rng, reuse=False, given=None):
 
     pre = e.pre.copy()
     QRS.fit = rec
+    CDH._fit_outlier_detection_model = outlier_rec
     try:
         if reuse:
             # first call, then the baseline is corrected in place in the caller's frame, second call on the same object
@@ -98,7 +136,7 @@ def one_case(run, driver, rng, reuse=False, given=None):
                 cl.get_estimates(e.cur.copy(), E.ELECTION_ID, e.office, estimands, [0.5], e.threshold, e.unit_type,
                                  raw_config=e.config(), preprocessed_data=pre, save_output=[], pi_method="nonparametric",
                                  aggregates=["postal_code", "unit"], features=[], fixed_effects={},
-                                 model_parameters={"fit_margin_outlier_model": False, "fit_turnout_outlier_model": False})
+                                 model_parameters=dict(mp))
             calls.clear()
             for c in ("baseline_dem", "baseline_gop", "baseline_turnout"):
                 pre[c] = (pre[c] * 1.5).astype(int) + 7
@@ -107,16 +145,20 @@ def one_case(run, driver, rng, reuse=False, given=None):
                 tabs = cl.get_estimates(e.cur.copy(), E.ELECTION_ID, e.office, estimands, [0.5], e.threshold, e.unit_type,
                                         raw_config=e.config(), preprocessed_data=pre, save_output=[],
                                         pi_method="nonparametric", aggregates=["postal_code", "unit"], features=[],
-                                        fixed_effects={}, model_parameters={"fit_margin_outlier_model": False,
-                                                                           "fit_turnout_outlier_model": False})
+                                        fixed_effects={}, model_parameters=dict(mp))
             res = {"tables": tabs}
         else:
-            res = E.run_client(e, estimands=estimands, alphas=[0.5], pi_method="nonparametric", features=[], fixed_effects={})
+            res = E.run_client(e, estimands=estimands, alphas=[0.5], pi_method="nonparametric", features=[], fixed_effects={},
+                               params=dict(mp))
     except Exception as ex:
         res = {"raises": type(ex).__name__, "msg": str(ex)[:200]}
     finally:
         QRS.fit = orig
+        CDH._fit_outlier_detection_model = orig_outlier
     run.count("reuse frames" if reuse else "fresh frames")
+    run.count(f"turnout factor limits {tf_lo}-{tf_hi}")
+    if outliers:
+        run.count("turnout outlier model on")
     run.count(f"{len(estimands)} estimand(s)")
     if res.get("raises") == "ModelNotEnoughSubunitsException":
         # heavy-tailed counts can push reporting units outside the turnout-factor limits; too few are then left and the gate of
@@ -133,6 +175,30 @@ def one_case(run, driver, rng, reuse=False, given=None):
     base = e.pre.set_index("geographic_unit_fips")
     cur = e.cur.set_index("geographic_unit_fips")
     nontrivial = False
+    # the modelled reporting units according to the rules (not according to the labels the run puts on them): at or above the
+    # threshold, turnout factor strictly inside the limits, not flagged by the enabled outlier model
+    rule_rep = set()
+    for u in base.index:
+        if u not in cur.index:
+            continue
+        tfu = Fraction(int(cur.loc[u, "results_turnout"])) / C.frac(float(base.loc[u, "baseline_turnout"])) if float(base.loc[u, "baseline_turnout"]) else None
+        if float(cur.loc[u, "percent_expected_vote"]) >= e.threshold and tfu is not None and C.frac(tf_lo) < tfu < C.frac(tf_hi):
+            rule_rep.add(u)
+    if flagged_by_rule:
+        if any(f["near"] for f in flagged_by_rule):
+            run.boundary_skipped += 1
+            run.case(case, False)
+            return
+        for f in flagged_by_rule:
+            rule_rep -= f["ids"]
+    impl_rep = {u for u in ud.index if ud.loc[u, "reporting"] == 1 and ud.loc[u, "unit_category"] == "expected"}
+    if impl_rep != rule_rep:
+        run.case(case, True)
+        run.violation("the units that enter the weighted median are not the modelled reporting units of the rules (threshold, turnout "
+                      "factor limits as configured, enabled outlier model)", input=case,
+                      impl={"only in the run": sorted(impl_rep - rule_rep)[:5], "only by the rules": sorted(rule_rep - impl_rep)[:5]},
+                      predicate="wmed over the modelled reporting units", signature="C05:modelled-set", election=e.to_json())
+        return
     for k, est in enumerate(estimands):
         rep_ids = [u for u in ud.index if ud.loc[u, "reporting"] == 1 and ud.loc[u, "unit_category"] == "expected"]
         non_ids = [u for u in ud.index if ud.loc[u, "reporting"] == 0 and ud.loc[u, "unit_category"] == "expected"]
@@ -195,18 +261,104 @@ def extract(run):
     return X.generate("C05")
 
 
+def outlier_edge_election(rng):
+    """an election in which one reporting unit sits just above the outlier cut-off mean + z * std of the absolute residuals (population
+    std): the unit's turnout is tuned by bisection against the real outlier model until it is flagged by a hair. How the spread is
+    computed then decides whether it enters the median."""
+    C.use_repo()
+    from elexmodel.handlers.data.CombinedData import CombinedDataHandler
+    from elexmodel.handlers.data.PreprocessedData import PreprocessedDataHandler
+
+    e = exact_election(rng, rng.choice([24, 30, 40]), n_partial=3)
+    est = "turnout"
+
+    def gap(e_, uid):
+        seen = {}
+        orig = CombinedDataHandler._fit_outlier_detection_model
+
+        def rec(self_, reporting_units, response_variable, z):
+            from elexsolver.QuantileRegressionSolver import QuantileRegressionSolver as Q2
+
+            preds = []
+            op = Q2.predict
+
+            def pred_rec(s, x, *a, **kw):
+                out = op(s, x, *a, **kw)
+                preds.append(np.asarray(out, dtype=float).ravel().copy())
+                return out
+
+            Q2.predict = pred_rec
+            try:
+                got = orig(self_, reporting_units, response_variable, z)
+            finally:
+                Q2.predict = op
+            y = reporting_units[response_variable].to_numpy(dtype=float)
+            ar = np.abs(y - preds[0][: len(y)])
+            ids = list(reporting_units["geographic_unit_fips"])
+            if uid in ids:
+                seen["gap"] = float(ar[ids.index(uid)] - (ar.mean() + z * ar.std()))
+                seen["band"] = float(z * (ar.std(ddof=1) - ar.std()))
+            return got
+
+        CombinedDataHandler._fit_outlier_detection_model = rec
+        try:
+            pre = PreprocessedDataHandler(E.ELECTION_ID, e_.office, e_.unit_type, [est], {est: est}, data=e_.pre.copy()).data
+            data = CombinedDataHandler(pre, e_.cur.copy(), [est], e_.unit_type, handle_unreporting="drop")
+            with np.errstate(all="ignore"):
+                data.get_units(e_.threshold, 0.5, 2.0, [], [], False, True, 2.0, ["postal_code"])
+        finally:
+            CombinedDataHandler._fit_outlier_detection_model = orig
+        return seen.get("gap"), seen.get("band")
+
+    uid = e.cur["geographic_unit_fips"].iloc[0]
+    i = e.cur.index[e.cur["geographic_unit_fips"] == uid][0]
+    b = int(e.pre.loc[e.pre["geographic_unit_fips"] == uid, "baseline_turnout"].iloc[0])
+    lo_t, hi_t = b, int(b * 1.95)  # turnout factor stays inside (0.5, 2)
+    best = None
+    for _ in range(40):
+        mid = (lo_t + hi_t) // 2
+        e.cur.loc[i, "results_turnout"] = mid
+        g, band = gap(e, uid)
+        if g is None:
+            return None
+        if g > 0:
+            best = (mid, g, band)
+            hi_t = mid
+        else:
+            lo_t = mid
+        if hi_t - lo_t <= 1:
+            break
+    if best is None or not (1e-6 < best[1] < 0.5 * best[2]):
+        return None
+    e.cur.loc[i, "results_turnout"] = best[0]
+    return e
+
+
 def explore(run, driver, budget):
     run.info["rule"] = RULE
     n = {"quick": 40, "thorough": 2500, "search": 300}[budget]
     for i in range(n):
         one_case(run, driver, run.rng, reuse=(i % 8 == 7))
+    # a unit flagged by the outlier model by a hair (tuned against the real model)
+    made = 0
+    for _ in range({"quick": 12, "thorough": 300, "search": 60}[budget]):
+        e = outlier_edge_election(run.rng)
+        if e is None:
+            continue
+        made += 1
+        one_case(run, driver, run.rng, given=(e, ["turnout"], (0.5, 2.0), True))
+        if made >= {"quick": 2, "thorough": 40, "search": 8}[budget]:
+            break
+    run.count("outlier edge cases", made)
 
 
 def replay(run, driver, payload):
     if payload.get("election") and isinstance(payload.get("input"), dict):
         run.info["rule"] = RULE
         e = E.Election.from_json(payload["election"])
-        one_case(run, driver, run.rng, reuse=bool(payload["input"].get("reuse_frames")), given=(e, payload["input"]["estimands"]))
+        inp = payload["input"]
+        one_case(run, driver, run.rng, reuse=bool(inp.get("reuse_frames")),
+                 given=(e, inp["estimands"], tuple(inp.get("turnout_factor_limits", (0.5, 2.0))), bool(inp.get("turnout_outlier_model"))))
         return
     # otherwise the generators are driven by the seed and pass recorded in the replay file (set by main): the same pass is re-run
     explore(run, driver, run.budget)
